@@ -91,6 +91,18 @@ fn gen_reference(rng: &mut Rng) -> (Vec<Vec<u8>>, usize, usize) {
         let l = rng.usize(66_000, 180_000);
         contigs.push(gen::random_bases(rng, l));
     }
+    if rng.chance(1, 3) {
+        // ambiguity codes and unknown letters break a k-mer window exactly like N does
+        for c in contigs.iter_mut() {
+            if c.is_empty() || rng.chance(1, 2) {
+                continue;
+            }
+            for _ in 0..rng.usize(1, 4) {
+                let p = rng.usize(0, c.len() - 1);
+                c[p] = if rng.chance(1, 8) { 30 } else { rng.usize(5, 15) as u8 };
+            }
+        }
+    }
     if rng.chance(1, 5) {
         let d = contigs[0].clone(); // a duplicated contig
         contigs.push(d);
@@ -98,6 +110,36 @@ fn gen_reference(rng: &mut Rng) -> (Vec<Vec<u8>>, usize, usize) {
     if rng.chance(1, 6) {
         let d = gen::revcomp(&contigs[0]); // and its reverse complement
         contigs.push(d);
+    }
+    (contigs, k, seg)
+}
+
+/// More than 2^20 k-mers, with blocks repeated far apart: twice within the first contig and once
+/// more in the last one, twice in the second and once in the third, ... Implementations that work
+/// through the reference in chunks (streaming, compaction, per-thread slices) must still count
+/// occurrences over the whole reference.
+fn gen_big_reference(rng: &mut Rng) -> (Vec<Vec<u8>>, usize, usize) {
+    let k = *rng.pick(&[15usize, 21, 31]);
+    let seg = *rng.pick(&[1000usize, 5000, 20000]);
+    let lens = [rng.usize(520_000, 640_000), rng.usize(520_000, 640_000), rng.usize(60_000, 140_000), rng.usize(30_000, 60_000)];
+    let mut contigs: Vec<Vec<u8>> = lens.iter().map(|&l| gen::random_bases(rng, l)).collect();
+    for (src, dst) in [(0usize, 3usize), (1, 2), (0, 2), (1, 3)] {
+        let l = rng.usize(k + 5, 160);
+        let a = rng.usize(0, contigs[src].len() / 2 - l);
+        let blk = contigs[src][a..a + l].to_vec();
+        // second copy in the same contig, third copy (or, for half of them, the only other copy) far away
+        if rng.chance(1, 2) {
+            let b = rng.usize(contigs[src].len() / 2, contigs[src].len() - l);
+            contigs[src][b..b + l].copy_from_slice(&blk);
+        }
+        let c = rng.usize(0, contigs[dst].len() - l);
+        contigs[dst][c..c + l].copy_from_slice(&blk);
+    }
+    if rng.chance(1, 2) {
+        let p = rng.usize(0, contigs[1].len() - 20);
+        for x in &mut contigs[1][p..p + 12] {
+            *x = 4;
+        }
     }
     (contigs, k, seg)
 }
@@ -210,7 +252,8 @@ pub fn run(args: &Args, rep: &mut Report) {
             }
         }
         let mut rng = Rng::derive(args.seed, 0xC11, i);
-        let (contigs, k, seg) = gen_reference(&mut rng);
+        let big = i % 400 == 77;
+        let (contigs, k, seg) = if big { gen_big_reference(&mut rng) } else { gen_reference(&mut rng) };
         rep.evaluations += 1;
         let r = catch_unwind(AssertUnwindSafe(|| {
             let mut tmp = Report::new();
@@ -233,6 +276,12 @@ pub fn run(args: &Args, rep: &mut Report) {
                 }
                 if contigs.iter().any(|c| c.len() > k + seg) {
                     rep.nontrivial(h);
+                }
+                if contigs.iter().map(|c| c.len()).sum::<usize>() > (1 << 20) + 100_000 {
+                    rep.count("references_with_more_than_a_million_kmers", 1);
+                }
+                if contigs.iter().any(|c| c.iter().any(|&b| b > 4)) {
+                    rep.count("references_with_ambiguity_codes", 1);
                 }
                 if contigs.iter().any(|c| c.len() > 65_536) {
                     rep.count("references_with_a_contig_longer_than_64k", 1);
